@@ -240,17 +240,18 @@ class EnvHandle(object):
         self.sink = sink
         ts_type = spec.get("ts_type", "datetime")
         self.ts_type = ts_type
+        ev_type, grid_type = {"mixed_grid_ts": ("datetime", "timestamp"), "mixed_events_ts": ("timestamp", "datetime")}.get(ts_type, (ts_type, ts_type))
         self.contracts = [world.build_contract(s) for s in spec["contracts"]]
         self.events = []
         for es in spec["events"]:
-            ev = build_event(es, self.contracts, ts_type)
+            ev = build_event(es, self.contracts, ev_type)
             sink.idmap[id(ev)] = es["id"]
             self.events.append(ev)
-        grid = [to_time(s, ts_type) for s in spec["grid"]]
+        grid = [to_time(s, grid_type) for s in spec["grid"]]
         order = spec.get("grid_input") or list(range(len(grid)))
         folds = None
         if spec.get("folds"):
-            folds = {k: [to_time(a, ts_type), to_time(b, ts_type)] for k, (a, b) in spec["folds"].items()}
+            folds = {k: [to_time(a, grid_type), to_time(b, grid_type)] for k, (a, b) in spec["folds"].items()}
         warm = timedelta(seconds=spec["warmup_s"]) if spec.get("warmup_s") is not None else None
         self.transmitter = Transmitter([grid[i] for i in order], folds, bool(spec.get("markov", False)), warm)
         self.transmitter.add_events(self.events)
